@@ -281,6 +281,9 @@ const (
 	c04PCapStart
 	c04PCapEnd
 	c04PRef
+	c04PRefAlt // (?:@v@|lit): the reference is one branch of an alternation
+	c04PRefOpt // (?:@v@)?
+	c04PRefRep // (?:@v@){2}
 	c04PAssert
 )
 
@@ -481,6 +484,21 @@ func (e *c04Elem) build() error {
 			pre.WriteString("(?:.*)")
 			e.refs = append(e.refs, p.name)
 			continue
+		case c04PRefAlt:
+			text.WriteString("(?:@" + p.name + "@|" + c04LitText(p.lit) + ")")
+			pre.WriteString("(?:(?:.*)|" + c04LitText(p.lit) + ")")
+			e.refs = append(e.refs, p.name)
+			continue
+		case c04PRefOpt:
+			text.WriteString("(?:@" + p.name + "@)?")
+			pre.WriteString("(?:(?:.*))?")
+			e.refs = append(e.refs, p.name)
+			continue
+		case c04PRefRep:
+			text.WriteString("(?:@" + p.name + "@){2}")
+			pre.WriteString("(?:(?:.*)){2}")
+			e.refs = append(e.refs, p.name)
+			continue
 		}
 		text.WriteString(s)
 		pre.WriteString(s)
@@ -610,6 +628,22 @@ func (e *c04Elem) sample(rt *rapid.T, label string, vars map[string][]byte) []by
 			} else {
 				out = append(out, c04Filler(rt, label+".f")...)
 			}
+		case c04PRefAlt:
+			if v, ok := vars[p.name]; ok && vregex.Uniform(rt, 2, label+".alt") == 0 {
+				out = append(out, v...)
+			} else {
+				out = append(out, p.lit...)
+			}
+		case c04PRefOpt:
+			if v, ok := vars[p.name]; ok && vregex.Uniform(rt, 2, label+".opt") == 0 {
+				out = append(out, v...)
+			}
+		case c04PRefRep:
+			v, ok := vars[p.name]
+			if !ok {
+				v = c04Filler(rt, label+".f")
+			}
+			out = append(append(out, v...), v...)
 		}
 	}
 	return out
@@ -877,7 +911,21 @@ func (g *c04Gen) user(vars ...string) *c04Elem {
 			if i > 0 && g.chance(50, "use-mid") {
 				ps = append(ps, g.lit(1, 1))
 			}
-			ps = append(ps, c04Piece{kind: c04PRef, name: v})
+			// mostly at the top level of the expression; now and then below an alternation, an optional group or
+			// a counted repetition (what the engine derives from the expression must be about the expression it compiles)
+			switch k := g.uni(20, "use-shape"); {
+			case k == 0:
+				ps = append(ps, c04Piece{kind: c04PRefAlt, name: v, lit: g.lit(1, 2).lit})
+				g.c.Label("reference-inside-alternation")
+			case k == 1:
+				ps = append(ps, c04Piece{kind: c04PRefOpt, name: v})
+				g.c.Label("reference-inside-optional-group")
+			case k == 2:
+				ps = append(ps, c04Piece{kind: c04PRefRep, name: v})
+				g.c.Label("reference-inside-counted-repetition")
+			default:
+				ps = append(ps, c04Piece{kind: c04PRef, name: v})
+			}
 			if g.chance(15, "use-twice") {
 				ps = append(ps, c04Piece{kind: c04PRef, name: v})
 			}
